@@ -14,7 +14,8 @@ RULE = ("dedicated malformed streams: (a) arbitrary byte strings (random bytes, 
         "every parse.Config (invalid combinations included) and as settings under VarExp, plus concatenations of 2-6 well-formed and "
         "malformed expansion pieces (tokens pending behind a parse error); (c) names made of separators only / with empty segments and (name, idx) pairs with idx in {-2^63, -5, "
         "-1, 0, len-1, len, MaxIdx, MaxIdx+1, 2^40} for every getter/setter/Has/Remove/Child; (d) Unpack targets of unsupported kinds "
-        "(chan, func, complex, map[int]T, *interface{}, **T, non-pointers) next to supported ones. Observable: returned / error / PANIC "
+        "(chan, func, complex, map[int]T, *interface{}, **T, non-pointers) next to supported ones, and 11 hand-written types with blank, "
+        "unexported and caseless-named fields, embedded unexported structs, interface fields with methods. Observable: returned / error / PANIC "
         "/ FATAL (process death, incl. stack overflow under a 64 MiB limit and memory under a 1 GiB GOMEMLIMIT) / timeout / leaked "
         "goroutines. Oracle: every call returns. Modelled kinds are also compared with the Lean model. Non-trivial: the input contains "
         "a structural character or is not valid in its format. Distinct by (entry point, input class, outcome).")
@@ -24,7 +25,7 @@ ASSUMPTIONS = ["MaxIdx itself is a trusted configuration value (a caller asking 
 
 
 def normalize_result(case, res):
-    if case.get("k") in ("load",):
+    if case.get("k") in ("load", "oddtarget"):
         if isinstance(res, dict) and ("panic" in res or "fatal" in res or "leakedGoroutines" in res):
             return res
         return {"unmodelled": True}
@@ -199,6 +200,25 @@ def gen(rng, tier):
                    "_sig": "target|%s|%s" % (TG.type_sig(ty, 2), shape_of(src))}
 
 
+ODD = ["blank", "under", "caseless", "nested", "embedded", "ifaces", "funcs", "allunexp", "sliceodd", "mapodd", "ptrnested"]
+
+
+def odd_cases(rng, tier):
+    """hand-written Go target types with blank / unexported / caseless-named fields, embedded unexported structs, interface
+    fields with methods, func and chan fields"""
+    srcs = [M([]), M([("a", U(1)), ("b", S("x")), ("name", S("n")), ("exported", U(2)), ("x", U(3)), ("n", U(4))]),
+            M([("in", M([("a", U(1)), ("b", S("y"))])), ("l", A([M([("name", S("q"))]), M([("name", S("r"))])])), ("m", M([("k", M([("exported", U(1))]))])),
+               ("p", M([("a", U(2))])), ("q", A([M([("name", S("a"))]), M([("name", S("b"))])]))]),
+            M([("r", S("text")), ("s", U(1)), ("e", M([("z", U(1))]))]), M([("_cache", S("c")), ("_", U(1)), ("名前", S("n")), ("y", U(1)), ("oddinner", M([("y", U(1))]))]),
+            A([M([("a", U(1))]), M([("b", S("z"))])]), M([("k1", M([("name", S("v"))])), ("k2", M([]))]), M([("a", U(0))]), M([("f", U(1)), ("c", U(2)), ("a", U(5))])]
+    for nm in ODD:
+        for src in srcs:
+            if tier == "quick" and rng.chance(0.3):
+                continue
+            yield {"k": "oddtarget", "name": nm, "from": src, "copts": [], "uopts": [], "_tag": "oddtargets", "_nt": True,
+                   "_sig": "odd|%s|%s" % (nm, shape_of(src))}
+
+
 def check_facts(facts):
     """the regenerated inventory of panic-capable sites against the reviewed one"""
     import os
@@ -223,6 +243,14 @@ def check_facts(facts):
 
 
 fix_candidate = TG.fix_typed_candidate
+
+
+_gen_streams = gen
+
+
+def gen(rng, tier):
+    yield from _gen_streams(rng, tier)
+    yield from odd_cases(rng.fork("odd"), tier)
 
 
 def nontrivial(case, impl):
